@@ -214,32 +214,33 @@ class Domain:
     def variants(self, spec, ctx=None, flag_bits: int = 0, only_size: Optional[int] = None) -> List[Variant]:
         if spec is se.UNSERIALIZABLE:
             return []
+        if isinstance(spec, type):  # class-level specs
+            if spec is se.Null:
+                return [(None, "null")]
+            if spec is se.UUID:
+                return [(u, f"uuid{i}") for i, u in enumerate(UUIDS)]
+            if issubclass(spec, se.TupleCoord):
+                return self._plain_coord(spec)
+            meth = getattr(self, "_v_" + spec.__name__, None)
+            if meth is None:
+                raise UnknownSpec(f"no value domain for class-level spec {spec.__name__}")
+            return meth(spec, ctx)
         if isinstance(spec, se.ForwardSerializable):
             spec._ensure_evaled()
-            return self.variants(spec._wrapped, ctx)
-        if spec is se.Null or isinstance(spec, se.Null):
-            return [(None, "null")]
-        if spec is se.UUID or isinstance(spec, se.UUID):
-            return [(u, f"uuid{i}") for i, u in enumerate(UUIDS)]
-        if isinstance(spec, type) and issubclass(spec, se.TupleCoord):
-            return self._plain_coord(spec)
+            return self.variants(spec._wrapped, ctx, flag_bits, only_size)
         if isinstance(spec, se.EncodedTupleCoord):
             return self._encoded_coord(spec, ctx)
         if isinstance(spec, se.SerializablePrimitive):
             return self._prim(spec)
-        meth = getattr(self, "_v_" + type(spec).__name__, None)
-        if meth is None:
-            for cls in type(spec).__mro__[1:]:
-                meth = getattr(self, "_v_" + cls.__name__, None)
-                if meth is not None:
-                    break
-        if meth is None:
-            raise UnknownSpec(f"no value domain for spec node {type(spec).__name__}: {spec!r}")
-        if meth.__name__ in ("_v_IntFlag",):
-            return meth(spec, ctx, flag_bits)
-        if meth.__name__ in ("_v_LengthSwitch",):
-            return meth(spec, ctx, only_size)
-        return meth(spec, ctx)
+        if isinstance(spec, se.IntFlag):
+            return self._v_IntFlag(spec, ctx, flag_bits)
+        if isinstance(spec, se.LengthSwitch):
+            return self._v_LengthSwitch(spec, ctx, only_size)
+        for cls in type(spec).__mro__:
+            meth = getattr(self, "_v_" + cls.__name__, None)
+            if meth is not None:
+                return meth(spec, ctx)
+        raise UnknownSpec(f"no value domain for spec node {type(spec).__name__}: {spec!r}")
 
     # -- leaves
     def _prim(self, spec) -> List[Variant]:
@@ -414,8 +415,7 @@ class Domain:
                 refbits[s._flag_field] = refbits.get(s._flag_field, 0) | s._flag_val
 
         def child_variants(n, vals):
-            return self.variants(specs[n], vals, flag_bits=refbits.get(n, 0)) if isinstance(specs[n], se.IntFlag) \
-                else self.variants(specs[n], vals)
+            return self.variants(specs[n], vals, flag_bits=refbits.get(n, 0))
 
         def build(vals: dict, start: int) -> dict:
             vals = dict(vals)
@@ -464,8 +464,7 @@ class Domain:
         return out
 
     def _typed(self, spec, ctx, only_size=None):
-        inner = self.variants(spec._spec, None, only_size=only_size) if isinstance(spec._spec, se.LengthSwitch) \
-            else self.variants(spec._spec, None)
+        inner = self.variants(spec._spec, None, only_size=only_size)
         if spec._empty_is_none:
             inner = [inner[0], (None, "none")] + inner[1:]
         return inner
@@ -510,32 +509,6 @@ class Domain:
                 ([nv(name="né")], "name-utf8"), (["attach STRING RW SV bare"], "bare-string")]
         return out
 
-    @classmethod
-    def is_namevalues(cls, spec) -> bool:
-        return isinstance(spec, type) and spec.__name__ == "NameValuesSerializer"
-
-
-def variants_of(dom: Domain, spec, ctx=None) -> List[Variant]:
-    """Entry point that also handles class-level (non-instance) specs."""
-    if isinstance(spec, type) and not (spec is se.UUID or spec is se.Null or issubclass(spec, se.TupleCoord)):
-        meth = getattr(dom, "_v_" + spec.__name__, None)
-        if meth is None:
-            raise UnknownSpec(f"no value domain for class-level spec {spec.__name__}")
-        return meth(spec, ctx)
-    return dom.variants(spec, ctx)
-
-
-# patch dispatch for class-level specs nested inside instances (TypedBytesTerminated(NameValuesSerializer, ...))
-_orig_variants = Domain.variants
-
-
-def _variants(self, spec, ctx=None, flag_bits: int = 0, only_size=None):
-    if isinstance(spec, type) and not (spec is se.UUID or spec is se.Null or issubclass(spec, se.TupleCoord)):
-        return variants_of(self, spec, ctx)
-    return _orig_variants(self, spec, ctx, flag_bits, only_size)
-
-
-Domain.variants = _variants
 
 
 # ------------------------------------------------------------------------------------------------ payload mutation
